@@ -145,6 +145,7 @@ var kinds = []string{
 	"place", "place", "place",
 	"drop", "drop", "drop",
 	"hb", "hb",
+	"restart", "restart", "restart",
 	"fail", "fail", "fail",
 }
 
@@ -209,6 +210,10 @@ func genCase(t *rapid.T) Case {
 			op.N = rapid.SampledFrom([]int{1, 1, 1, 1, 1, 1, 2, 2, 3, 3, 4}).Draw(t, "n")
 		}
 		c.Ops = append(c.Ops, op)
+		// the background store check often is the first thing that runs after a restart
+		if op.Kind == "restart" && rapid.IntRange(0, 2).Draw(t, "checkAfterRestart") > 0 {
+			c.Ops = append(c.Ops, Op{Kind: "check", Pick: rapid.IntRange(0, 15).Draw(t, "pick")})
+		}
 	}
 	return c
 }
@@ -246,7 +251,10 @@ type mstore struct {
 	deploy    string
 	labels    []Label
 	lw, rw    float64
-	doubt     bool // a failed SetStoreWeight left weight keys behind: stored weights undetermined
+	// weights as the weight keys in storage have them: a SetStoreWeight whose later write fails
+	// leaves the keys it already wrote behind (served state unchanged, as required); they stay
+	// "in doubt" until the next successful SetStoreWeight — or become served by a restart
+	slw, srw float64
 }
 
 func (s *mstore) clone() *mstore {
@@ -260,7 +268,6 @@ func (s *mstore) live() bool { return s.state != stTombstone && !s.destroyed }
 type mregion struct {
 	id     uint64
 	stores []uint64
-	info   *core.RegionInfo
 }
 
 type model struct {
@@ -275,6 +282,10 @@ type model struct {
 	// of such a store has been removed
 	residue map[uint64]bool
 	orphan  bool
+	// the per-store region counter cached in StoreInfo as the code maintains it: refreshed for
+	// the stores of a region whenever that region changes in the cache, zero after a restart
+	// until then (RemoveTombStoneRecords documents that it skips tombstones by this counter)
+	cached map[uint64]int
 }
 
 func (m *model) ids() []uint64 {
@@ -431,7 +442,7 @@ func (m *model) expectPut(req *mstore, force bool, cv semver.Version, strict boo
 		}
 	} else {
 		rec = req.clone()
-		rec.state, rec.destroyed, rec.lw, rec.rw = stUp, false, 1, 1
+		rec.state, rec.destroyed, rec.lw, rec.rw, rec.slw, rec.srw = stUp, false, 1, 1, 1, 1
 	}
 	if strict {
 		if why := labelsOK(rec.labels); why != "" {
@@ -547,6 +558,11 @@ func newFixture(c Case) (*fixture, error) {
 	f.cancel = cancel
 	f.rc = cluster.NewRaftCluster(ctx, "/pd/c14", 1, nil, nil, nil)
 	f.rc.InitCluster(mockid.NewIDAllocator(), opt, core.NewStorage(f.fkv), f.bc)
+	// what bootstrap leaves in storage; LoadClusterInfo refuses to load without it
+	if err := f.oracle.SaveMeta(&metapb.Cluster{Id: 1, MaxPeerCount: 3}); err != nil {
+		cancel()
+		return nil, err
+	}
 	f.fkv.SetGate(func(kind, key string) error {
 		if kind != "save" && kind != "remove" {
 			return nil
@@ -585,6 +601,27 @@ func newFixture(c Case) (*fixture, error) {
 
 func newRegion(meta *metapb.Region) *core.RegionInfo {
 	return core.NewRegionInfo(meta, meta.Peers[0], core.SetApproximateSize(10))
+}
+
+// restart models a PD restart / leader change: a new RaftCluster with a new cache over the
+// same storage, filled by LoadClusterInfo (stores via LoadStores, regions via LoadRegions).
+// The options object is kept (a member keeps its options and reloads them from the same storage).
+func (f *fixture) restart() error {
+	f.cancel()
+	ctx, cancel := context.WithCancel(context.Background())
+	f.cancel = cancel
+	f.bc = core.NewBasicCluster()
+	rc := cluster.NewRaftCluster(ctx, "/pd/c14", 1, nil, nil, nil)
+	rc.InitCluster(mockid.NewIDAllocator(), f.opt, core.NewStorage(f.fkv), f.bc)
+	got, err := rc.LoadClusterInfo()
+	if err != nil {
+		return err
+	}
+	if got == nil {
+		return fmt.Errorf("LoadClusterInfo found no cluster meta")
+	}
+	f.rc = rc
+	return nil
 }
 
 // syncStatus does what processRegionHeartbeat does after it changed the region cache.
@@ -654,7 +691,7 @@ func runCase(c Case) (vkit.Info, error) {
 	}
 	defer f.cancel()
 	rc := f.rc
-	m := &model{stores: map[uint64]*mstore{}, nextID: 1, nextReg: 1, residue: map[uint64]bool{}}
+	m := &model{stores: map[uint64]*mstore{}, nextID: 1, nextReg: 1, residue: map[uint64]bool{}, cached: map[uint64]int{}}
 	info.ClassIf(c.Strict, "strict-labels")
 	knownMerge := vkit.Known(KeyMergeLabels)
 	knownHbPanic := vkit.Known(KeyHeartbeatPanic)
@@ -675,6 +712,7 @@ func runCase(c Case) (vkit.Info, error) {
 	}
 
 	reachedTomb, tombAddressed, rejected := false, false, false
+	afterRestart := false // no store operation since the last restart
 	pendingN := 0
 	for i, op := range c.Ops {
 		if op.Kind == "fail" {
@@ -682,6 +720,9 @@ func runCase(c Case) (vkit.Info, error) {
 			continue
 		}
 		at := fmt.Sprintf("op %d %s", i, op.Kind)
+		if op.Kind == "place" || op.Kind == "drop" {
+			afterRestart = false // region traffic refreshes counters
+		}
 		switch op.Kind {
 		case "place":
 			first, ok := m.pick(op.Want, op.Pick, false)
@@ -709,10 +750,14 @@ func runCase(c Case) (vkit.Info, error) {
 			for j, s := range stores {
 				meta.Peers = append(meta.Peers, &metapb.Peer{Id: rid*10 + uint64(j) + 100000, StoreId: s})
 			}
-			ri := newRegion(meta)
-			f.bc.PutRegion(ri)
-			m.regions = append(m.regions, &mregion{id: rid, stores: stores, info: ri})
-			f.syncStatus(stores...)
+			// the real path of a region heartbeat: cache, per-store counters and storage
+			if err := rc.VerifProcessRegionHeartbeat(newRegion(meta)); err != nil {
+				return info, fmt.Errorf("%s: harness: heartbeat of new region %d refused: %v", at, rid, err)
+			}
+			m.regions = append(m.regions, &mregion{id: rid, stores: stores})
+			for _, s := range stores {
+				m.cached[s] = m.regionCount(s)
+			}
 			if m.stores[first].state == stTombstone {
 				tombAddressed = true
 				info.Class("region-on-tombstone")
@@ -733,7 +778,7 @@ func runCase(c Case) (vkit.Info, error) {
 				var cand []int
 				for k, r := range m.regions {
 					for _, s := range r.stores {
-						if matches(m.stores[s], op.Want) {
+						if m.stores[s] != nil && matches(m.stores[s], op.Want) {
 							cand = append(cand, k)
 							break
 						}
@@ -744,31 +789,68 @@ func runCase(c Case) (vkit.Info, error) {
 				}
 			}
 			r := m.regions[idx]
-			f.bc.RemoveRegion(r.info)
+			cur := f.bc.GetRegion(r.id)
+			if cur == nil {
+				return info, fmt.Errorf("%s: harness: region %d of the model is not in the cache", at, r.id)
+			}
+			f.bc.RemoveRegion(cur)
+			if err := f.oracle.DeleteRegion(cur.GetMeta()); err != nil {
+				return info, fmt.Errorf("%s: harness: %v", at, err)
+			}
 			m.regions = append(m.regions[:idx:idx], m.regions[idx+1:]...)
 			var still []uint64
 			for _, s := range r.stores {
 				if m.stores[s] != nil {
 					still = append(still, s)
+					m.cached[s] = m.regionCount(s)
 				}
 			}
 			f.syncStatus(still...)
 			continue
+		case "restart":
+			if err := f.restart(); err != nil {
+				return info, fmt.Errorf("%s: harness: %v", at, err)
+			}
+			rc = f.rc
+			m.cached = map[uint64]int{}
+			m.orphan = false
+			offlineWithPeers := false
+			for _, id := range m.ids() {
+				s := m.stores[id]
+				s.lw, s.rw = s.slw, s.srw // the weight keys are what a restart serves
+				if s.state == stTombstone {
+					m.residue[id] = true // LoadClusterInfo creates a statistics entry for every loaded store
+				}
+				if got := f.bc.GetStoreRegionCount(id); got != m.regionCount(id) {
+					return info, fmt.Errorf("%s: harness: after the reload store %d has %d region peers in the cache, model %d", at, id, got, m.regionCount(id))
+				}
+				offlineWithPeers = offlineWithPeers || (s.state == stOffline && m.regionCount(id) > 0)
+			}
+			info.Class("restart")
+			info.ClassIf(offlineWithPeers, "restart-with-offline-store-holding-peers")
+			afterRestart = true
+			if err := f.compare(m, at); err != nil {
+				return info, err
+			}
+			continue
 		}
 
 		// ---- a storage-writing operation of the store API
+		justRestarted := afterRestart
+		afterRestart = false
 		before := snapshot(rc)
 		cv := *f.opt.GetClusterVersion()
 		var (
-			target     uint64 // addressed store (0: none)
-			call       func() error
-			expectErr  string          // non-empty: the model says the op must be refused
-			apply      func()          // model transition when the op succeeds
-			noResult   bool            // checkStores has no result
-			hbOp       bool            // store heartbeat: the record write is best-effort
-			buryCand   map[uint64]bool // check: stores that may be buried
-			rmEligible []uint64        // rmTomb: records that must go
-			touchTomb  = func(id uint64) {
+			target       uint64 // addressed store (0: none)
+			call         func() error
+			expectErr    string          // non-empty: the model says the op must be refused
+			apply        func()          // model transition when the op succeeds
+			noResult     bool            // checkStores has no result
+			hbOp         bool            // store heartbeat: the record write is best-effort
+			buryCand     map[uint64]bool // check: stores that may be buried
+			rmEligible   []uint64        // rmTomb: records that must go
+			attLW, attRW float64         // weight: the attempted values
+			touchTomb    = func(id uint64) {
 				if s := m.stores[id]; s != nil && s.state == stTombstone {
 					tombAddressed = true
 				}
@@ -921,7 +1003,8 @@ func runCase(c Case) (vkit.Info, error) {
 			if s := m.stores[id]; s == nil {
 				expectErr = "not-found: store not found"
 			} else {
-				apply = func() { s.lw, s.rw, s.doubt = lw, rw, false }
+				attLW, attRW = lw, rw
+				apply = func() { s.lw, s.rw, s.slw, s.srw = lw, rw, lw, rw }
 			}
 		case "hb":
 			id, ok := m.pick(op.Want, op.Pick, false)
@@ -958,6 +1041,9 @@ func runCase(c Case) (vkit.Info, error) {
 						cands = append(cands, id)
 					} else {
 						info.Class("bury-blocked-by-region")
+						if justRestarted {
+							info.Class("check-right-after-restart-offline-store-holds-peers")
+						}
 					}
 				}
 			}
@@ -978,8 +1064,11 @@ func runCase(c Case) (vkit.Info, error) {
 				s := m.stores[id]
 				if s.state == stTombstone {
 					tombAddressed = true
-					if m.regionCount(id) == 0 {
+					if m.cached[id] == 0 {
 						rmEligible = append(rmEligible, id)
+						if m.regionCount(id) > 0 {
+							info.Class("tombstone-record-with-stale-counter-removable")
+						}
 					}
 				}
 			}
@@ -1070,7 +1159,10 @@ func runCase(c Case) (vkit.Info, error) {
 			}
 			if op.Kind == "weight" && fl.count > 1 {
 				if s := m.stores[target]; s != nil {
-					s.doubt = true
+					s.slw = attLW // the leader key was written before the failure
+					if fl.count > 2 {
+						s.srw = attRW
+					}
 					info.Class("weights-in-doubt")
 				}
 			}
@@ -1254,8 +1346,8 @@ func (f *fixture) compare(m *model, at string) error {
 		if !sameRecord(st.meta, sv.meta) {
 			return fmt.Errorf("%s: store %d served {%s}, stored {%s}", at, id, canonMeta(sv.meta), canonMeta(st.meta))
 		}
-		if !ms.doubt && (st.lw != sv.lw || st.rw != sv.rw) {
-			return fmt.Errorf("%s: store %d served weights (%v,%v), stored weights (%v,%v)", at, id, sv.lw, sv.rw, st.lw, st.rw)
+		if st.lw != ms.slw || st.rw != ms.srw {
+			return fmt.Errorf("%s: store %d stored weights (%v,%v), expected (%v,%v) (served (%v,%v))", at, id, st.lw, st.rw, ms.slw, ms.srw, sv.lw, sv.rw)
 		}
 		one := &metapb.Store{}
 		found, err := f.oracle.LoadStore(id, one)
